@@ -498,7 +498,8 @@ pub fn run_pb(case: &Case, fragmented: bool, caps: AllocCaps, tag: u64) -> LegOu
     let mut stats = StreamStats::default();
     // the buffer is harness state: built before the measurement window opens
     let mut frag = if fragmented { Some(SimBuf::new(case.bytes.clone(), &chunks, case.sched.tail)) } else { None };
-    let mut cont = if fragmented { None } else { Some(Bytes::from(case.bytes.clone())) };
+    let input_keep = if fragmented { None } else { Some(Bytes::from(case.bytes.clone())) };
+    let mut cont = input_keep.clone();
     let wt = parts.get(2).and_then(|x| x.parse::<u8>().ok()).and_then(wire_type_of);
     let rep = parts.get(3) == Some(&"r");
     alloc::window_begin(tag, caps.single, caps.window);
@@ -568,5 +569,11 @@ pub fn run_pb(case: &Case, fragmented: bool, caps: AllocCaps, tag: u64) -> LegOu
             (LegRes::Panic { site, msg }, 0)
         }
     };
-    LegOut { res, consumed, skip_ret: None, next: None, consumed_total: consumed, polls: 0, ticks: 0, stream: stats, alloc: win, input_unique: true }
+    drop(cont);
+    drop(frag);
+    let input_unique = match &input_keep {
+        Some(b) => b.is_empty() || b.is_unique(),
+        None => true,
+    };
+    LegOut { res, consumed, skip_ret: None, next: None, consumed_total: consumed, polls: 0, ticks: 0, stream: stats, alloc: win, input_unique }
 }
